@@ -44,7 +44,7 @@ package dns
 //@   requires zp != nil && zp.c != nil
 //@   requires lexinv: (zp.c.l.value == 1 ==> len(zp.c.l.token) > 0) && (zp.c.cachedL != nil ==> (zp.c.cachedL.value == 1 ==> len(zp.c.cachedL.token) > 0))
 //@   loop * invariant (zp.c.l.value == 1 ==> len(zp.c.l.token) > 0) && (zp.c.cachedL != nil ==> (zp.c.cachedL.value == 1 ==> len(zp.c.cachedL.token) > 0))
-//@   assume at "*rr.Header() = *h" tabctor: rr != nil && zp.c != nil && (zp.c.l.value == 1 ==> len(zp.c.l.token) > 0) && (zp.c.cachedL != nil ==> (zp.c.cachedL.value == 1 ==> len(zp.c.cachedL.token) > 0))
+//@   assert at "*rr.Header() = *h" tabctor: rr != nil && zp.c != nil && (zp.c.l.value == 1 ==> len(zp.c.l.token) > 0) && (zp.c.cachedL != nil ==> (zp.c.cachedL.value == 1 ==> len(zp.c.cachedL.token) > 0))
 //@   loop 1 invariant (st == 15 || st == 16 || st == 19 || st == 20) ==> zp.h.Class == 1 [C06]
 //@   assert at "h.Rrtype = l.torc@1" classin: zp.h.Class == 1 [C06]
 //@   assert at "st = zExpectAnyNoTTLBl@1" ttltrack0: zp.defttl != nil && (zp.defttl.isByDirective || zp.defttl.ttl == ttl) && zp.h.Ttl == ttl [C05 C06]
